@@ -42,6 +42,7 @@ def setup(ctx):
     ]
     ctx.require("monitor", "special_file_requests", 10)
     ctx.require("monitor", "changing_tree_responses", 300)
+    ctx.require("monitor", "physical_resolutions_checked", 300)
     ctx.require("monitor", "responses", 3000)
     ctx.require("monitor", "success_bodies_checked", 500)
     ctx.require("monitor", "attacks_at_outside", 500)
@@ -134,6 +135,19 @@ def spellings(rng, meta):
                 parent = posixpath.dirname(urel) or "/"
                 yield urel + "/../" + posixpath.relpath(via, parent), "via-unresolvable-link-then-symlink:" + os.path.basename(ulink).split("-")[0], "outside-file", f
                 yield urel + "/x/../../" + posixpath.relpath(via, parent), "via-unresolvable-link-then-symlink:" + os.path.basename(ulink).split("-")[0], "outside-file", f
+    # ".." right after a segment that is not a plain directory: a link to another directory (inside or outside), a
+    # link that leads nowhere or in circles, a name that does not exist, a name with a NUL in it.  What ".." means
+    # there is decided by the file system, not by the spelling
+    import posixpath as _pp
+
+    some_files = in_files[:: max(1, len(in_files) // 6)][:8]
+    odd_segments = [("/" + "/".join(enc(s2) for s2 in rel_segments(meta, link)), "link:" + os.path.basename(link)[:12]) for link, _t in meta["links"]]
+    odd_segments += [("/no-such-name", "missing"), ("/x%00y", "nul-name"), ("/docs/no-such-name", "missing-deep")]
+    for f in some_files:
+        frel = "/" + "/".join(enc(s2) for s2 in rel_segments(meta, f["abs"]))
+        for seg, kind in odd_segments:
+            parent = _pp.dirname(seg) or "/"
+            yield seg + "/../" + _pp.relpath(frel, parent), "dotdot-after-" + kind.split(":")[0], "inside-file-noisy", None
     for od in ("site-private", "site2", "outside", "outside/sub"):
         for p, cls in [("/../" + od + "/", "dotdot-dir"), ("/%2e%2e/" + od + "/", "encoded-dotdot-dir"), ("/../" + od, "dotdot-dir-noslash"), ("/..%2f" + od + "%2f", "encoded-slash-dir")]:
             yield p, cls, "outside-dir", None
@@ -180,7 +194,33 @@ def judge(ctx, meta, listing, path, cls, tclass, target, resp, via="L0", audit_e
         nm = target["name"]
         name_class = "pct" if "%" in nm else ("space" if " " in nm else ("non-ascii" if not nm.isascii() else ("reserved" if not re.fullmatch(r"[A-Za-z0-9._\-]+", nm) else "plain")))
     verdict = "ok"
-    if 20 <= status <= 29:
+    # where the operating system says this path leads (every link followed, every ".." applied to what the
+    # segment before it really is): a 2x answer carries THAT file (or that directory's index / listing), and a
+    # path that leads nowhere is not answered 2x
+    physical = None
+    raw_path = path.split("?", 1)[0]
+    try:
+        from urllib.parse import unquote_to_bytes
+
+        decoded = unquote_to_bytes(raw_path).decode("utf-8")
+        if "\x00" not in decoded and "%" not in re.sub(r"%[0-9A-Fa-f]{2}", "", raw_path):
+            physical = os.path.realpath(os.path.join(meta["root"], decoded.lstrip("/")))
+    except (UnicodeDecodeError, ValueError):
+        physical = None
+    if physical is not None and via == "L0" and 20 <= status <= 29:
+        ctx.count("monitor", "physical_resolutions_checked")
+        served = [meta["tokens"][t]["abs"] for t in toks if t in meta["tokens"]]
+        if not os.path.lexists(physical):
+            verdict = "success-for-nothing"
+            ctx.violation(f"success-for-path-that-leads-nowhere:how={cls}", f"the path resolves to {physical}, which does not exist, yet the answer is {status}", dict(wit, resolves_to=physical))
+        elif served:
+            allowed = {physical} | {os.path.realpath(os.path.join(physical, i)) for i in ("index.gmi", "index.gemini")}
+            if os.path.realpath(served[0]) not in allowed and inside(physical, root):
+                verdict = "wrong-file"
+                ctx.violation(f"wrong-file-served:how={cls}", f"the path resolves to {physical}; the answer carries the content of {served[0]}", dict(wit, resolves_to=physical))
+    if verdict != "ok":
+        pass
+    elif 20 <= status <= 29:
         ctx.count("monitor", "success_bodies_checked")
         outside_toks = [t for t in toks if t in meta["tokens"] and not inside(meta["tokens"][t]["abs"], root)]
         out_names = [n for n in meta["outside_names"] if n in text]
